@@ -39,10 +39,12 @@ class FaultyOut(object):
             raise BrokenPipeError(32, 'Broken pipe')
 
     def close(self):
-        pass
+        # like a buffered pipe with bytes still pending: closing a broken stream fails too
+        if self.fail_at and self.calls >= self.fail_at:
+            raise BrokenPipeError(32, 'Broken pipe')
 
 
-def run_csvwriter(mods, case, qtext, fail_at):
+def run_csvwriter(mods, case, qtext, fail_at, close_on_finish=False):
     rbql, eng, rcsv, cu = mods
     RecIterator, RecWriter, Registry = engine.make_recorders(eng)
     events = []
@@ -73,7 +75,7 @@ def run_csvwriter(mods, case, qtext, fail_at):
     hdrB = list(case['hdrB']) if case['hasHdr'] else None
     it = RecIterator(A, hdrA, events, 'a')
     out = FaultyOut(fail_at)
-    wr = RecCSVWriter(out, False, None, ',', 'quoted')
+    wr = RecCSVWriter(out, close_on_finish, None, ',', 'quoted')
     reg = Registry(B, hdrB, events) if case['q']['join'] != 'none' else None
     warnings = []
     err = None
@@ -81,7 +83,7 @@ def run_csvwriter(mods, case, qtext, fail_at):
         eng.query(qtext, it, wr, warnings, reg)
     except Exception as e:  # noqa
         err = type(e).__name__ + ': ' + str(e)
-    return {'text': ''.join(out.parts), 'parts': list(out.parts), 'calls': out.calls, 'err': err, 'events': events, 'pulled': it.calls}
+    return {'text': ''.join(out.parts), 'parts': list(out.parts), 'calls': out.calls, 'err': err, 'events': events, 'pulled': it.calls, 'flushes': out.flushes}
 
 
 def _pipe_chunk(cases):
@@ -97,8 +99,14 @@ def _pipe_chunk(cases):
             continue
         nruns = 0
         for j in range(1, full['calls'] + 2):
+            r2 = run_csvwriter(mods, case, qtext, j, close_on_finish=True)
+            nruns += 1
+            if r2['err']:
+                sigs.append({'impl': 'py', 'what': 'exception escaped on broken pipe (close_stream_on_finish)', 'fail_at': j, 'msg': r2['err'], 'query': qtext})
             r = run_csvwriter(mods, case, qtext, j)
             nruns += 1
+            if r['flushes'] and j <= full['calls']:
+                sigs.append({'impl': 'py', 'what': 'finish() flushed a stream already known to be broken', 'fail_at': j, 'query': qtext})
             if r['err']:
                 sigs.append({'impl': 'py', 'what': 'exception escaped on broken pipe', 'fail_at': j, 'msg': r['err'], 'query': qtext})
                 continue
@@ -217,8 +225,8 @@ def check(run):
                 'non-trivial = >= 2 input records and output / >= 3 fault runs / byte string with a non-ASCII byte')
     run.assumptions = ['a broken pipe is represented by a stream raising BrokenPipeError (no OS pipe)']
     ec.spec_mutant(run, 'Q_C15', 'R_2x2', 'no_stop_on_false', maxA=2, breakpoints=(0, 1, 2))
-    ec.run_family(run, 'C15-breakpoints', 'Q_C15', 'R_2x2', maxA=2 if quick else 3, breakpoints=tuple(range(0, 5 if quick else 7)), hdrmodes=(False, True))
-    broken_pipe_csv(run, 'C15-pipe', 'Q_C15', 'R_2x2', 2 if quick else 3)
+    ec.run_family(run, 'C15-breakpoints', 'Q_C15', 'R_2x2', recsB='R_2x2', maxA=2 if quick else 3, maxB=2, breakpoints=tuple(range(0, 5 if quick else 7)), hdrmodes=(False, True))
+    broken_pipe_csv(run, 'C15-pipe', 'Q_C15', 'R_2x2', 2 if quick else 3, recsB='R_2x2', maxB=2)
     bad_bytes(run, 3 if quick else 4)
     from .. import frontends
     frontends.fd_scenarios(run)
